@@ -471,4 +471,988 @@ theorem inv_reachable (app : App) (hwf : app.WF) (s : State) (h : app.Reachable 
   exact inv_run app hwf msgs _ (inv_init app hwf)
 
 
+/-! ## commutation of independent dispatches (S3) -/
+
+/-- two optional states: both absent, or both present and equal on `A` -/
+def OptAgree (A : Nat → Prop) : Option State → Option State → Prop
+  | none, none => True
+  | some a, some b => ∀ k, A k → a k = b k
+  | _, _ => False
+
+/-- Two partial steps with disjoint write sets, each of which reads nothing the other
+    writes, commute. -/
+theorem commute_of_frames (f g : State → Option State) (Wf Wg : Nat → Prop)
+    (hdisj : ∀ k, Wf k → ¬ Wg k)
+    (f_wr : ∀ s s', f s = some s' → ∀ k, ¬ Wf k → s' k = s k)
+    (g_wr : ∀ s s', g s = some s' → ∀ k, ¬ Wg k → s' k = s k)
+    (f_fr : ∀ s t, (∀ k, ¬ Wg k → s k = t k) → OptAgree (fun k => ¬ Wg k) (f s) (f t))
+    (g_fr : ∀ s t, (∀ k, ¬ Wf k → s k = t k) → OptAgree (fun k => ¬ Wf k) (g s) (g t))
+    (s : State) : (f s).bind g = (g s).bind f := by
+  cases hf : f s with
+  | none =>
+    cases hg : g s with
+    | none => rfl
+    | some s2 =>
+      have := f_fr s2 s (g_wr s s2 hg)
+      rw [hf] at this
+      cases hf2 : f s2 with
+      | none => simp [hf2]
+      | some x => rw [hf2] at this; exact this.elim
+  | some s1 =>
+    have h1 := g_fr s1 s (f_wr s s1 hf)
+    cases hg : g s with
+    | none =>
+      rw [hg] at h1
+      cases hg1 : g s1 with
+      | none => simp [hg1]
+      | some x => rw [hg1] at h1; exact h1.elim
+    | some s2 =>
+      have h2 := f_fr s2 s (g_wr s s2 hg)
+      rw [hg] at h1
+      rw [hf] at h2
+      cases hg1 : g s1 with
+      | none => rw [hg1] at h1; exact h1.elim
+      | some s12 =>
+        cases hf2 : f s2 with
+        | none => rw [hf2] at h2; exact h2.elim
+        | some s21 =>
+          rw [hg1] at h1; rw [hf2] at h2
+          simp only [Option.bind_some, hg1, hf2, Option.some.injEq]
+          apply State.ext
+          intro k
+          by_cases hk : Wg k
+          · have hkf : ¬ Wf k := fun h => hdisj k h hk
+            rw [h1 k hkf, f_wr s2 s21 hf2 k hkf]
+          · rw [g_wr s1 s12 hg1 k hk, h2 k hk]
+
+namespace App
+variable {app : App}
+
+theorem cascade_agree (hwf : app.WF) (A : Nat → Prop) (ds : List Nat)
+    (h : ∀ d ∈ ds, d < app.size ∧ ∀ a ∈ (app.param d).anc, A a) (s t : State)
+    (hst : ∀ k, A k → s k = t k) : ∀ k, A k → app.cascade ds s k = app.cascade ds t k := by
+  induction ds generalizing s t with
+  | nil => exact hst
+  | cons d r ih =>
+    show ∀ k, A k → app.cascade r (upd s d (expected (app.param d) s)) k
+        = app.cascade r (upd t d (expected (app.param d) t)) k
+    have hd := h d List.mem_cons_self
+    apply ih (fun x hx => h x (List.mem_cons_of_mem _ hx))
+    intro k hk
+    rw [upd_apply, upd_apply, expected_frame hwf hd.1 s t (fun a ha => hst a (hd.2 a ha)), hst k hk]
+
+theorem setParam_agree (hwf : app.WF) (A : Nat → Prop) (i : Nat) (v : Val) (hi : A i)
+    (h : ∀ d ∈ app.desc i, ∀ a ∈ (app.param d).anc, A a) (s t : State)
+    (hst : ∀ k, A k → s k = t k) : ∀ k, A k → app.setParam i v s k = app.setParam i v t k := by
+  unfold setParam
+  rw [hst i hi]
+  split
+  · exact hst
+  · apply cascade_agree hwf A _ (fun d hd => ⟨((mem_desc app).mp hd).1, h d hd⟩)
+    intro k hk
+    rw [upd_apply, upd_apply, hst k hk]
+
+/-- the part of `dispatch` behind the address look-up -/
+def dispatchAt (app : App) (i : Nat) (args : List Val) (s : State) : Option State :=
+  let p := app.param i
+  if ptrOff p s then none
+  else match args with
+    | [] => some s
+    | [v] =>
+      match store p.kind v with
+      | none => none
+      | some v' => if guardsOn p s then some (app.setParam i v' s) else some s
+    | _ => none
+
+theorem dispatch_eq (app : App) (addr : Path) (args : List Val) (s : State) :
+    app.dispatch addr args s = (app.findAddr addr).bind fun i => app.dispatchAt i args s := by
+  unfold dispatch dispatchAt
+  cases app.findAddr addr <;> rfl
+
+theorem dispatchAt_wr (app : App) (i : Nat) (args : List Val) (s s' : State)
+    (h : app.dispatchAt i args s = some s') : ∀ k, ¬ app.wr i k → s' k = s k := by
+  intro k hk
+  unfold dispatchAt at h
+  simp only at h
+  split at h
+  · cases h
+  · split at h
+    · cases h; rfl
+    · split at h
+      · cases h
+      · split at h
+        · cases h; exact setParam_not_wr app i _ s hk
+        · cases h; rfl
+    · cases h
+
+theorem dispatchAt_frame (hwf : app.WF) (A : Nat → Prop) (i : Nat) (hi : i < app.size) (args : List Val)
+    (hA : ∀ j x, app.wr i j → app.le x j → A x) (s t : State)
+    (hst : ∀ k, A k → s k = t k) : OptAgree A (app.dispatchAt i args s) (app.dispatchAt i args t) := by
+  have hAi : A i := hA i i (Or.inl rfl) (Or.inl rfl)
+  have hanc : ∀ a ∈ (app.param i).anc, s a = t a :=
+    fun a ha => hst a (hA i a (Or.inl rfl) (Or.inr ha))
+  unfold dispatchAt
+  simp only
+  rw [ptrOff_frame hwf hi s t hanc, guardsOn_frame hwf hi s t hanc]
+  split
+  · trivial
+  · split
+    · exact hst
+    · split
+      · trivial
+      · split
+        · exact setParam_agree hwf A i _ hAi
+            (fun d hd a ha => hA d a (Or.inr hd) (Or.inr ha)) s t hst
+        · exact hst
+    · trivial
+
+theorem indep_frame (hwf : app.WF) {pa pb : Nat} (ha : pa < app.size)
+    (hne : pa ≠ pb) (h1 : pa ∉ (app.param pb).anc) (h2 : pb ∉ (app.param pa).anc) :
+    ∀ j x, app.wr pa j → app.le x j → ¬ app.wr pb x := by
+  intro j x hj hx hw
+  have hj' := (wr_iff ha).mp hj
+  have hpbx : app.le pb x := by
+    rcases hw with rfl | hw
+    · exact Or.inl rfl
+    · exact Or.inr ((mem_desc app).mp hw).2
+  have hpbj := le_trans hwf hj'.1 hpbx hx
+  rcases hj'.2 with rfl | hpa
+  · rcases hpbj with rfl | h
+    · exact hne rfl
+    · exact h2 h
+  · rcases hpbj with rfl | hpb
+    · exact h1 hpa
+    · rcases hwf.anc_chain j hj'.1 pa hpa pb hpb with h | h | h
+      · exact hne h
+      · exact h1 h
+      · exact h2 h
+
+theorem dispatchAt_commute (hwf : app.WF) {pa pb : Nat} (ha : pa < app.size) (hb : pb < app.size)
+    (hne : pa ≠ pb) (h1 : pa ∉ (app.param pb).anc) (h2 : pb ∉ (app.param pa).anc)
+    (va vb : List Val) (s : State) :
+    (app.dispatchAt pa va s).bind (app.dispatchAt pb vb)
+      = (app.dispatchAt pb vb s).bind (app.dispatchAt pa va) := by
+  apply commute_of_frames _ _ (app.wr pa) (app.wr pb)
+  · intro k hk
+    exact indep_frame hwf ha hne h1 h2 k k hk (Or.inl rfl)
+  · exact dispatchAt_wr app pa va
+  · exact dispatchAt_wr app pb vb
+  · exact dispatchAt_frame hwf _ pa ha va (indep_frame hwf ha hne h1 h2)
+  · exact dispatchAt_frame hwf _ pb hb vb (indep_frame hwf hb hne.symm h2 h1)
+
+theorem dispatch_commute (hwf : app.WF) (a1 a2 : Path) (v1 v2 : List Val)
+    (h : ∀ pa pb, app.findAddr a1 = some pa → app.findAddr a2 = some pb →
+      pa ≠ pb ∧ pa ∉ (app.param pb).anc ∧ pb ∉ (app.param pa).anc) (s : State) :
+    (app.dispatch a1 v1 s).bind (app.dispatch a2 v2)
+      = (app.dispatch a2 v2 s).bind (app.dispatch a1 v1) := by
+  cases hf1 : app.findAddr a1 with
+  | none =>
+    have e : ∀ t, app.dispatch a1 v1 t = none := fun t => by rw [dispatch_eq, hf1]; rfl
+    rw [e]
+    cases app.dispatch a2 v2 s with
+    | none => rfl
+    | some x => simp [e]
+  | some pa =>
+    cases hf2 : app.findAddr a2 with
+    | none =>
+      have e : ∀ t, app.dispatch a2 v2 t = none := fun t => by rw [dispatch_eq, hf2]; rfl
+      rw [e]
+      cases app.dispatch a1 v1 s with
+      | none => rfl
+      | some x => simp [e]
+    | some pb =>
+      have e1 : app.dispatch a1 v1 = app.dispatchAt pa v1 :=
+        funext fun t => by rw [dispatch_eq, hf1]; rfl
+      have e2 : app.dispatch a2 v2 = app.dispatchAt pb v2 :=
+        funext fun t => by rw [dispatch_eq, hf2]; rfl
+      rw [e1, e2]
+      obtain ⟨hne, h1, h2⟩ := h pa pb hf1 hf2
+      exact dispatchAt_commute hwf (findAddr_some app hf1).1 (findAddr_some app hf2).1 hne h1 h2 v1 v2 s
+
+end App
+
+/-! ## lines as message sequences (S3) -/
+
+/-- two lists of steps that commute element-wise commute as wholes -/
+theorem runSteps_comm_lists {σ ι : Type} (step : ι → σ → Option σ) (l₁ l₂ : List ι)
+    (hc : ∀ x ∈ l₁, ∀ y ∈ l₂, ∀ s, (step x s).bind (step y) = (step y s).bind (step x)) (s : σ) :
+    (runSteps step l₁ s).bind (runSteps step l₂) = (runSteps step l₂ s).bind (runSteps step l₁) := by
+  rw [← runSteps_append, ← runSteps_append]
+  induction l₂ generalizing s with
+  | nil => simp
+  | cons y r ih =>
+    rw [runSteps_move_front step y l₁ r
+      (fun x hx s => (hc x hx y List.mem_cons_self s).symm) s]
+    show (step y s).bind (runSteps step (l₁ ++ r)) = (step y s).bind (runSteps step (r ++ l₁))
+    cases step y s with
+    | none => rfl
+    | some s' =>
+      exact ih (fun x hx y' hy' => hc x hx y' (List.mem_cons_of_mem _ hy')) s'
+
+/-- the messages an array line is split into -/
+def arrMsgs (addr : Path) : List Val → Nat → List (Path × List Val)
+  | [], _ => []
+  | v :: vs, i => (addr ++ natDigits i, [v]) :: arrMsgs addr vs (i + 1)
+
+/-- the messages `applyLine` dispatches for a line -/
+def lineMsgs (l : Line) : List (Path × List Val) :=
+  match l.args with
+  | .plain vs => [(l.addr, vs)]
+  | .arr [] => [(l.addr ++ natDigits 0, [])]
+  | .arr vs => arrMsgs l.addr vs 0
+
+theorem mem_arrMsgs {addr : Path} {vs : List Val} {i : Nat} {m : Path × List Val}
+    (h : m ∈ arrMsgs addr vs i) : ∃ k, i ≤ k ∧ k < i + vs.length ∧ m.1 = addr ++ natDigits k := by
+  induction vs generalizing i with
+  | nil => cases h
+  | cons v r ih =>
+    rcases List.mem_cons.mp h with rfl | h
+    · exact ⟨i, Nat.le_refl _, by simp, rfl⟩
+    · obtain ⟨k, h1, h2, h3⟩ := ih h
+      exact ⟨k, by omega, by simp only [List.length_cons]; omega, h3⟩
+
+namespace App
+variable {app : App}
+
+def msgStep (app : App) (m : Path × List Val) (s : State) : Option State := app.dispatch m.1 m.2 s
+
+theorem dispatchArr_eq (app : App) (addr : Path) (vs : List Val) (i : Nat) (s : State) :
+    app.dispatchArr addr vs i s = runSteps app.msgStep (arrMsgs addr vs i) s := by
+  induction vs generalizing i s with
+  | nil => rfl
+  | cons v r ih =>
+    show (match app.dispatch (addr ++ natDigits i) [v] s with
+      | none => none
+      | some s' => app.dispatchArr addr r (i + 1) s')
+      = (app.dispatch (addr ++ natDigits i) [v] s).bind (runSteps app.msgStep (arrMsgs addr r (i + 1)))
+    cases app.dispatch (addr ++ natDigits i) [v] s with
+    | none => rfl
+    | some s' => exact ih (i + 1) s'
+
+theorem applyLine_eq (app : App) (l : Line) (s : State) :
+    app.applyLine l s = runSteps app.msgStep (lineMsgs l) s := by
+  obtain ⟨addr, args⟩ := l
+  cases args with
+  | plain vs =>
+    show app.dispatch addr vs s = (app.dispatch addr vs s).bind some
+    simp
+  | arr vs =>
+    cases vs with
+    | nil =>
+      show app.dispatch (addr ++ natDigits 0) [] s = (app.dispatch (addr ++ natDigits 0) [] s).bind some
+      simp
+    | cons v r => exact dispatchArr_eq app addr (v :: r) 0 s
+
+theorem lineMsgs_params (app : App) (l : Line) (m : Path × List Val) (hm : m ∈ lineMsgs l)
+    (p : Nat) (hp : app.findAddr m.1 = some p) : p ∈ app.lineParams l := by
+  obtain ⟨addr, args⟩ := l
+  cases args with
+  | plain vs =>
+    simp only [lineMsgs, List.mem_singleton] at hm
+    subst hm
+    simp [lineParams, hp]
+  | arr vs =>
+    cases vs with
+    | nil =>
+      simp only [lineMsgs, List.mem_singleton] at hm
+      subst hm
+      simp only [lineParams, List.mem_filterMap, List.mem_range]
+      exact ⟨0, by simp, hp⟩
+    | cons v r =>
+      obtain ⟨k, _, hk, he⟩ := mem_arrMsgs (show m ∈ arrMsgs addr (v :: r) 0 from hm)
+      simp only [lineParams, List.mem_filterMap, List.mem_range]
+      rw [he] at hp
+      exact ⟨k, by omega, hp⟩
+
+end App
+
+/-- S3: lines whose parameters are pairwise different and unrelated by ancestry commute,
+    on every state -/
+theorem independent_lines_commute (app : App) (hwf : app.WF) (a b : Line)
+    (hab : ∀ pa ∈ app.lineParams a, ∀ pb ∈ app.lineParams b,
+        pa ≠ pb ∧ pa ∉ (app.param pb).anc ∧ pb ∉ (app.param pa).anc) (s : State) :
+    (app.applyLine a s).bind (app.applyLine b) = (app.applyLine b s).bind (app.applyLine a) := by
+  have ea : app.applyLine a = runSteps app.msgStep (lineMsgs a) := funext (App.applyLine_eq app a)
+  have eb : app.applyLine b = runSteps app.msgStep (lineMsgs b) := funext (App.applyLine_eq app b)
+  rw [ea, eb]
+  apply runSteps_comm_lists
+  intro x hx y hy t
+  exact App.dispatch_commute hwf x.1 y.1 x.2 y.2
+    (fun pa pb h1 h2 => hab pa (App.lineMsgs_params app a x hx pa h1) pb (App.lineMsgs_params app b y hy pb h2)) t
+
+
+/-! ## shape of the saved lines (S5, S8) -/
+
+theorem tiling_facts {a b : Nat} {l : List Item} (h : Tiling a l b) :
+    a ≤ b ∧ (∀ it ∈ l, a ≤ it.lo ∧ it.lo < it.hi ∧ it.hi ≤ b) ∧ l.Pairwise (fun x y => x.hi ≤ y.lo) := by
+  induction l generalizing a with
+  | nil =>
+    have : a = b := h
+    subst this
+    exact ⟨Nat.le_refl _, fun _ h => (by cases h), List.Pairwise.nil⟩
+  | cons it r ih =>
+    obtain ⟨h1, h2, h3⟩ := h
+    obtain ⟨i1, i2, i3⟩ := ih h3
+    refine ⟨by omega, ?_, List.pairwise_cons.mpr ⟨fun y hy => (i2 y hy).1, i3⟩⟩
+    intro x hx
+    rcases List.mem_cons.mp hx with rfl | hx
+    · exact ⟨by omega, h2, i1⟩
+    · have := i2 x hx
+      exact ⟨by omega, this.2.1, this.2.2⟩
+
+namespace App
+variable {app : App}
+
+theorem saveItem_scalar (app : App) (s : State) (i : Nat) :
+    app.saveItem s (.scalar i) =
+      if guardsOn (app.param i) s = true then
+        if evalDflt (app.param i) s = s i then none
+        else some ⟨(app.param i).addr, .plain [mapArgVal (app.param i).kind (s i)]⟩
+      else none := by
+  by_cases h : guardsOn (app.param i) s = true <;> simp [saveItem, h]
+
+theorem saveItem_array (app : App) (s : State) (base : Path) (first len : Nat) :
+    app.saveItem s (.array base first len) =
+      if guardsOn (app.param first) s = true then
+        if ((List.range len).map (· + first)).map (fun i => evalDflt (app.param i) s)
+            = ((List.range len).map (· + first)).map (fun i => s i) then none
+        else some ⟨base, .arr ((((List.range len).map (· + first)).take
+          (firstEqualIndex (((List.range len).map (· + first)).map (fun i => evalDflt (app.param i) s))
+            (((List.range len).map (· + first)).map (fun i => s i)) 0 0)).map
+            fun i => mapArgVal (app.param i).kind (s i))⟩
+      else none := by
+  by_cases h : guardsOn (app.param first) s = true <;> simp [saveItem, h]
+
+theorem saveItem_reached {s : State} {it : Item} {l : Line} (h : app.saveItem s it = some l) :
+    app.itemReached s it = true := by
+  cases it with
+  | scalar i =>
+    rw [saveItem_scalar] at h
+    unfold itemReached
+    split at h
+    · assumption
+    · cases h
+  | array base first len =>
+    rw [saveItem_array] at h
+    unfold itemReached
+    split at h
+    · assumption
+    · cases h
+
+theorem saveItem_addr {s : State} {it : Item} {l : Line} (h : app.saveItem s it = some l) :
+    l.addr = app.itemAddr it := by
+  cases it with
+  | scalar i =>
+    rw [saveItem_scalar] at h
+    split at h
+    · split at h
+      · cases h
+      · cases h; rfl
+    · cases h
+  | array base first len =>
+    rw [saveItem_array] at h
+    split at h
+    · split at h
+      · cases h
+      · cases h; rfl
+    · cases h
+
+/-- with distinct item addresses the `written` test never fires -/
+theorem saveFrom_eq (app : App) (s : State) (l : List Item) (w : List Path)
+    (hnd : (l.map app.itemAddr).Nodup) (hw : ∀ it ∈ l, app.itemAddr it ∉ w) :
+    app.saveFrom s l w = l.filterMap (app.saveItem s) := by
+  induction l generalizing w with
+  | nil => rfl
+  | cons it r ih =>
+    have hnd' := List.nodup_cons.mp (show (app.itemAddr it :: r.map app.itemAddr).Nodup from hnd)
+    have hr : ∀ w', (∀ x ∈ w', x = app.itemAddr it ∨ x ∈ w) →
+        app.saveFrom s r w' = r.filterMap (app.saveItem s) := by
+      intro w' hw'
+      apply ih w' hnd'.2
+      intro it' hit' hmem
+      rcases hw' _ hmem with h | h
+      · exact hnd'.1 (h ▸ List.mem_map_of_mem hit')
+      · exact hw it' (List.mem_cons_of_mem _ hit') h
+    unfold saveFrom
+    by_cases hre : app.itemReached s it = true
+    · have hc : w.contains (app.itemAddr it) = false := by
+        simpa using hw it List.mem_cons_self
+      simp only [hre, Bool.not_true, Bool.false_eq_true, if_false, hc]
+      cases hsi : app.saveItem s it with
+      | none =>
+        simp only [List.filterMap_cons, hsi]
+        exact hr _ (fun x hx => by simpa using hx)
+      | some ln =>
+        simp only [List.filterMap_cons, hsi]
+        congr 1
+        exact hr _ (fun x hx => by simpa using hx)
+    · have hsi : app.saveItem s it = none := by
+        cases hsi : app.saveItem s it with
+        | none => rfl
+        | some ln => exact absurd (saveItem_reached hsi) hre
+      simp only [Bool.not_eq_true] at hre
+      simp only [hre, Bool.not_false, if_true, List.filterMap_cons, hsi]
+      exact hr w (fun x hx => Or.inr hx)
+
+theorem saveFrom_perm_eq (hwf : app.WF) (s : State) (rw : List Item) (hperm : rw.Perm app.walk) :
+    app.saveFrom s rw [] = rw.filterMap (app.saveItem s) := by
+  apply saveFrom_eq
+  · exact ((hperm.map app.itemAddr).nodup_iff).mpr hwf.item_addr_nodup
+  · intro _ _ h; cases h
+
+theorem save_eq (hwf : app.WF) (s : State) : app.save s = app.walk.filterMap (app.saveItem s) :=
+  saveFrom_perm_eq hwf s app.walk (List.Perm.refl _)
+
+end App
+
+/-- S5 -/
+theorem saveFrom_perm (app : App) (hwf : app.WF) (s : State) (rw : List Item)
+    (hperm : rw.Perm app.walk) : (app.saveFrom s rw []).Perm (app.save s) := by
+  rw [App.saveFrom_perm_eq hwf s rw hperm, App.save_eq hwf]
+  exact hperm.filterMap _
+
+/-- S8: what is saved: exactly the reached ports whose value differs from the default -/
+theorem mem_save_iff (app : App) (hwf : app.WF) (s : State) (l : Line) :
+    l ∈ app.save s ↔ ∃ it ∈ app.walk, app.itemReached s it = true ∧ app.saveItem s it = some l := by
+  rw [App.save_eq hwf, List.mem_filterMap]
+  constructor
+  · rintro ⟨it, h1, h2⟩; exact ⟨it, h1, App.saveItem_reached h2, h2⟩
+  · rintro ⟨it, h1, _, h2⟩; exact ⟨it, h1, h2⟩
+
+
+/-! ## shape of the saved lines (S6, S7, S9) -/
+namespace App
+variable {app : App}
+
+theorem param_default (app : App) {i : Nat} (h : app.size ≤ i) : app.param i = default := by
+  unfold param
+  rw [List.getD_eq_getElem?_getD, List.getElem?_eq_none h]
+  rfl
+
+/-- a fresh instance holds the defaults, also at indices that are no parameters -/
+theorem evalDflt_init (hwf : app.WF) (i : Nat) : evalDflt (app.param i) app.init = app.init i := by
+  by_cases hi : i < app.size
+  · exact (hwf.canon_ok i hi).symm
+  · show evalDflt (app.param i) app.init = (app.param i).canon
+    rw [param_default app (Nat.le_of_not_lt hi)]
+    rfl
+
+theorem saveItem_init (hwf : app.WF) (it : Item) : app.saveItem app.init it = none := by
+  cases it with
+  | scalar i =>
+    rw [saveItem_scalar]
+    split
+    · rw [if_pos (evalDflt_init hwf i)]
+    · rfl
+  | array base first len =>
+    rw [saveItem_array]
+    split
+    · rw [if_pos]
+      exact List.map_congr_left (fun i _ => evalDflt_init hwf i)
+    · rfl
+
+/-- an item of the walk that lies inside the parameter range -/
+def Good (app : App) (it : Item) : Prop := it ∈ app.walk ∧ it.lo < it.hi ∧ it.hi ≤ app.size
+
+theorem good_of_tiling (app : App) {rw : List Item} (hperm : rw.Perm app.walk)
+    (htile : Tiling 0 rw app.size) : ∀ it ∈ rw, app.Good it := by
+  intro it hit
+  have := (tiling_facts htile).2.1 it hit
+  exact ⟨hperm.subset hit, this.2.1, this.2.2⟩
+
+theorem saveItem_lineParams (hwf : app.WF) (s : State) {it : Item} (hg : app.Good it) {l : Line}
+    (h : app.saveItem s it = some l) : ∀ p ∈ app.lineParams l, it.lo ≤ p ∧ p < it.hi := by
+  obtain ⟨hw, hlt, hsz⟩ := hg
+  cases it with
+  | scalar i =>
+    simp only [Item.lo, Item.hi] at hlt hsz ⊢
+    rw [saveItem_scalar] at h
+    split at h
+    · split at h
+      · cases h
+      · cases h
+        intro p hp
+        simp only [lineParams, findAddr_param app hwf.addr_nodup (show i < app.size by omega),
+          Option.toList_some, List.mem_singleton] at hp
+        omega
+    · cases h
+  | array base first len =>
+    simp only [Item.lo, Item.hi] at hlt hsz ⊢
+    rw [saveItem_array] at h
+    split at h
+    · split at h
+      · cases h
+      · cases h
+        intro p hp
+        simp only [lineParams, List.mem_filterMap, List.mem_range, List.length_map,
+          List.length_take, List.length_range] at hp
+        obtain ⟨k, hk, hf⟩ := hp
+        have hkl : k < len := by omega
+        obtain ⟨_, hel⟩ := hwf.array_ok base first len hw
+        have hadr := (hel k hkl).1
+        rw [← hadr, findAddr_param app hwf.addr_nodup (show first + k < app.size by omega)] at hf
+        cases hf
+        omega
+    · cases h
+
+theorem saveItem_lineOK (s : State) {it : Item} (hw : it ∈ app.walk) {l : Line}
+    (h : app.saveItem s it = some l) : app.LineOK l := by
+  cases it with
+  | scalar i =>
+    rw [saveItem_scalar] at h
+    split at h
+    · split at h
+      · cases h
+      · cases h; trivial
+    · cases h
+  | array base first len =>
+    rw [saveItem_array] at h
+    split at h
+    · split at h
+      · cases h
+      · cases h
+        refine ⟨first, len, hw, ?_⟩
+        simp only [List.length_map, List.length_take, List.length_range]
+        omega
+    · cases h
+
+end App
+
+/-- S9 -/
+theorem save_init (app : App) (hwf : app.WF) : app.save app.init = [] := by
+  rw [App.save_eq hwf, List.filterMap_eq_nil_iff]
+  intro it _
+  exact App.saveItem_init hwf it
+
+/-- S6: in index order no line stands before one that must precede it -/
+theorem saveFrom_topo (app : App) (hwf : app.WF) (s : State) (rw : List Item)
+    (hperm : rw.Perm app.walk) (htile : Tiling 0 rw app.size) :
+    (app.saveFrom s rw []).Pairwise (fun a b => ¬ app.lineLt b a) := by
+  rw [App.saveFrom_perm_eq hwf s rw hperm]
+  have hp : rw.Pairwise (fun x y => app.Good x ∧ app.Good y ∧ x.hi ≤ y.lo) :=
+    List.Pairwise.imp_of_mem
+      (fun hx hy h => ⟨App.good_of_tiling app hperm htile _ hx, App.good_of_tiling app hperm htile _ hy, h⟩)
+      (tiling_facts htile).2.2
+  refine List.Pairwise.filterMap _ ?_ hp
+  rintro x y ⟨gx, gy, hxy⟩ a ha b hb ⟨pb, hpb, pa, hpa, hanc⟩
+  have h1 := App.saveItem_lineParams hwf s gx ha pa hpa
+  have h2 := App.saveItem_lineParams hwf s gy hb pb hpb
+  have := hwf.anc_lt pa (by have := gx.2.2; omega) pb hanc
+  omega
+
+/-- S7 -/
+theorem save_fileOK (app : App) (hwf : app.WF) (s : State) (hs : app.Inv s) : app.FileOK (app.save s) := by
+  have _ := hs  -- not needed: the shape of `save` does not depend on the invariant
+  obtain ⟨rw, hperm, htile⟩ := hwf.walk_tiles
+  rw [App.save_eq hwf]
+  refine ⟨?_, ?_, ?_⟩
+  · have hsub : ((app.walk.filterMap (app.saveItem s)).map (·.addr)).Sublist (app.walk.map app.itemAddr) := by
+      generalize app.walk = l
+      induction l with
+      | nil => exact List.Sublist.refl _
+      | cons it r ih =>
+        rw [List.filterMap_cons]
+        cases hsi : app.saveItem s it with
+        | none => exact ih.cons _
+        | some ln =>
+          simp only [List.map_cons]
+          rw [App.saveItem_addr hsi]
+          exact ih.cons_cons _
+    exact hsub.nodup hwf.item_addr_nodup
+  · intro l hl
+    obtain ⟨it, hit, hsi⟩ := List.mem_filterMap.mp hl
+    exact App.saveItem_lineOK s hit hsi
+  · have hp : rw.Pairwise (fun x y => app.Good x ∧ app.Good y ∧ (x.hi ≤ y.lo ∨ y.hi ≤ x.lo)) :=
+      List.Pairwise.imp_of_mem
+        (fun hx hy h => ⟨App.good_of_tiling app hperm htile _ hx,
+          App.good_of_tiling app hperm htile _ hy, Or.inl h⟩)
+        (tiling_facts htile).2.2
+    have hp' : app.walk.Pairwise (fun x y => app.Good x ∧ app.Good y ∧ (x.hi ≤ y.lo ∨ y.hi ≤ x.lo)) :=
+      (hperm.pairwise_iff (fun ⟨a, b, c⟩ => ⟨b, a, c.symm⟩)).mp hp
+    refine List.Pairwise.filterMap _ ?_ hp'
+    rintro x y ⟨gx, gy, hxy⟩ a ha b hb p hpa hpb
+    have h1 := App.saveItem_lineParams hwf s gx ha p hpa
+    have h2 := App.saveItem_lineParams hwf s gy hb p hpb
+    omega
+
+
+/-! ## restoring a state: scalar ports (S4) -/
+namespace App
+variable {app : App}
+
+/-- state while the lines of `s` are loaded in index order into a fresh instance: below
+    `lo` it is `s` already, from `lo` on every parameter holds its `expected` value -/
+structure Mid (app : App) (s : State) (lo : Nat) (t : State) : Prop where
+  below : ∀ i, i < lo → t i = s i
+  above : ∀ i, lo ≤ i → i < app.size → t i = expected (app.param i) t
+  outside : ∀ i, app.size ≤ i → t i = s i
+
+theorem mid_init (hwf : app.WF) (s : State) (hs : app.Inv s) : app.Mid s 0 app.init :=
+  ⟨fun _ h => by omega, fun i _ hi => (expected_init hwf hi).symm, fun i hi => (hs.outside i hi).symm⟩
+
+theorem Mid.extend {s t : State} {lo hi : Nat} (hm : app.Mid s lo t) (hle : lo ≤ hi)
+    (h : ∀ i, lo ≤ i → i < hi → t i = s i) : app.Mid s hi t :=
+  ⟨fun i hi' => if hlt : i < lo then hm.below i hlt else h i (by omega) hi',
+   fun i h1 h2 => hm.above i (by omega) h2, hm.outside⟩
+
+theorem Mid.succ {s t : State} {k : Nat} (hm : app.Mid s k t) (h : t k = s k) : app.Mid s (k + 1) t := by
+  apply hm.extend (by omega)
+  intro i h1 h2
+  have : i = k := by omega
+  subst this
+  exact h
+
+theorem Mid.final {s t : State} (hm : app.Mid s app.size t) : t = s := by
+  apply State.ext
+  intro i
+  by_cases hi : i < app.size
+  · exact hm.below i hi
+  · exact hm.outside i (by omega)
+
+/-- one step of the restore loop -/
+def stepItem (app : App) (o : Option Line) (t : State) : Option State :=
+  match o with
+  | none => some t
+  | some l => app.applyLine l t
+
+theorem mid_setParam (hwf : app.WF) {s t : State} {k : Nat} (hk : k < app.size) (hm : app.Mid s k t) :
+    app.Mid s (k + 1) (app.setParam k (s k) t) := by
+  by_cases hne : (app.param k).kind = .tog ∧ t k = s k
+  · have : app.setParam k (s k) t = t := by unfold setParam; rw [if_pos hne]
+    rw [this]
+    exact hm.succ hne.2
+  · have hnw : ∀ i, i ≠ k → i ∉ app.desc k → ¬ app.wr k i := by
+      intro i h1 h2 h; exact h.elim h1 h2
+    refine ⟨?_, ?_, ?_⟩
+    · intro i hi
+      by_cases hik : i = k
+      · subst hik; exact setParam_self hwf _ _ _
+      · have hd : i ∉ app.desc k := fun h => by
+          have h' := (mem_desc app).mp h
+          have := hwf.anc_lt i h'.1 k h'.2
+          omega
+        rw [setParam_not_wr app k _ t (hnw i hik hd)]
+        exact hm.below i (by omega)
+    · intro i h1 h2
+      by_cases hd : i ∈ app.desc k
+      · exact setParam_desc hwf k _ t hne hd
+      · have := hnw i (by omega) hd
+        rw [setParam_not_wr app k _ t this, setParam_expected_not_wr hwf k _ t h2 this]
+        exact hm.above i (by omega) h2
+    · intro i hi
+      have hd : i ∉ app.desc k := fun h => by have := ((mem_desc app).mp h).1; omega
+      rw [setParam_not_wr app k _ t (hnw i (by omega) hd)]
+      exact hm.outside i hi
+
+theorem step_scalar (hwf : app.WF) {s : State} (hs : app.Inv s) {k : Nat} (hk : k < app.size)
+    {t : State} (hm : app.Mid s k t) :
+    ∃ t', app.stepItem (app.saveItem s (.scalar k)) t = some t' ∧ app.Mid s (k + 1) t' := by
+  have hfr : ∀ a ∈ (app.param k).anc, t a = s a :=
+    fun a ha => hm.below a (hwf.anc_lt k hk a ha)
+  have hexp := expected_frame hwf hk t s hfr
+  have hg := guardsOn_frame hwf hk t s hfr
+  have htk : t k = expected (app.param k) s := by rw [hm.above k (Nat.le_refl _) hk, hexp]
+  have hone : t k = s k → app.Mid s (k + 1) t := hm.succ
+  rw [saveItem_scalar]
+  split
+  · next hgs =>
+    split
+    · next heq =>
+      refine ⟨t, rfl, hone ?_⟩
+      rw [htk]; unfold expected; rw [if_pos hgs]; exact heq
+    · refine ⟨app.setParam k (s k) t, ?_, mid_setParam hwf hk hm⟩
+      show app.dispatch (app.param k).addr [mapArgVal (app.param k).kind (s k)] t = _
+      rw [dispatch_eq, findAddr_param app hwf.addr_nodup hk, Option.bind_some]
+      unfold dispatchAt
+      have hgt : guardsOn (app.param k) t = true := hg.trans hgs
+      have hst : store (app.param k).kind (mapArgVal (app.param k).kind (s k)) = some (s k) :=
+        hs.storable k hk
+      simp only [ptrOff_of_guardsOn _ _ hgt, hst, hgt, if_true, Bool.false_eq_true, if_false]
+  · next hgs =>
+    refine ⟨t, rfl, hone ?_⟩
+    simp only [Bool.not_eq_true] at hgs
+    rw [htk, hs.hidden_canon k hk hgs]
+    unfold expected
+    rw [hgs]; rfl
+
+end App
+
+/-! ## restoring a state: array ports (S4) -/
+
+theorem firstEqualIndex_ge (ds rs : List Val) (i acc : Nat) (h : acc ≤ i) :
+    acc ≤ firstEqualIndex ds rs i acc := by
+  induction ds generalizing rs i acc with
+  | nil => unfold firstEqualIndex; exact Nat.le_refl _
+  | cons d ds ih =>
+    cases rs with
+    | nil => unfold firstEqualIndex; exact Nat.le_refl _
+    | cons r rs =>
+      unfold firstEqualIndex
+      by_cases hdr : d = r
+      · rw [if_pos hdr]; exact ih rs (i + 1) acc (by omega)
+      · rw [if_neg hdr]
+        have := ih rs (i + 1) (i + 1) (Nat.le_refl _)
+        omega
+
+/-- behind the printed prefix the runtime values equal the defaults -/
+theorem firstEqualIndex_suffix (ds rs : List Val) (i acc : Nat) (h : acc ≤ i) (j : Nat)
+    (h1 : j < ds.length) (h2 : j < rs.length) (hle : firstEqualIndex ds rs i acc ≤ i + j) :
+    ds[j] = rs[j] := by
+  induction ds generalizing rs i acc j with
+  | nil => cases h1
+  | cons d ds ih =>
+    cases rs with
+    | nil => cases h2
+    | cons r rs =>
+      unfold firstEqualIndex at hle
+      cases j with
+      | zero =>
+        by_cases hdr : d = r
+        · exact hdr
+        · rw [if_neg hdr] at hle
+          have := firstEqualIndex_ge ds rs (i + 1) (i + 1) (Nat.le_refl _)
+          omega
+      | succ j =>
+        simp only [List.getElem_cons_succ]
+        simp only [List.length_cons] at h1 h2
+        refine ih rs (i + 1) (if d = r then acc else i + 1) (by split <;> omega) j
+          (by omega) (by omega) (by omega)
+
+end Rtosc.Save
+namespace Rtosc.Save
+
+theorem arr_lists (f g : Nat → Val) (first len : Nat) :
+    (∀ k, k < len → firstEqualIndex (((List.range len).map (· + first)).map f)
+        (((List.range len).map (· + first)).map g) 0 0 ≤ k → f (first + k) = g (first + k)) ∧
+    ((((List.range len).map (· + first)).map f) ≠ (((List.range len).map (· + first)).map g) →
+      0 < min (firstEqualIndex (((List.range len).map (· + first)).map f)
+        (((List.range len).map (· + first)).map g) 0 0) len) := by
+  have key : ∀ k (hk : k < len), firstEqualIndex (((List.range len).map (· + first)).map f)
+        (((List.range len).map (· + first)).map g) 0 0 ≤ k →
+        (((List.range len).map (· + first)).map f)[k]'(by simpa using hk)
+          = (((List.range len).map (· + first)).map g)[k]'(by simpa using hk) := by
+    intro k hk hn
+    exact firstEqualIndex_suffix _ _ 0 0 (Nat.le_refl _) k _ _ (by omega)
+  constructor
+  · intro k hk hn
+    have := key k hk hn
+    simpa [Nat.add_comm] using this
+  · intro hne
+    apply Nat.pos_of_ne_zero
+    intro h0
+    apply hne
+    apply List.ext_getElem (by simp)
+    intro k h1 h2
+    have hk : k < len := by simpa using h1
+    exact key k hk (by omega)
+
+theorem arr_vals_eq (g : Nat → Val) (first len n : Nat) :
+    (((List.range len).map (· + first)).take n).map g
+      = (List.range' 0 (min n len)).map (fun k => g (first + k)) := by
+  rw [← List.map_take, List.take_range, List.map_map, List.range_eq_range']
+  apply List.map_congr_left
+  intro k _
+  simp [Nat.add_comm]
+
+namespace App
+variable {app : App}
+
+theorem applyLine_arr_ne (app : App) (a : Path) (vs : List Val) (h : vs ≠ []) (t : State) :
+    app.applyLine ⟨a, .arr vs⟩ t = app.dispatchArr a vs 0 t := by
+  cases vs with
+  | nil => exact absurd rfl h
+  | cons v r => rfl
+
+theorem arr_elem (hwf : app.WF) {s : State} (hs : app.Inv s) {base : Path} {first len : Nat}
+    (hw : Item.array base first len ∈ app.walk) (hsz : first + len ≤ app.size)
+    (hgs : guardsOn (app.param first) s = true) {k : Nat} (hk : k < len) (cur : State)
+    (hcur : ∀ x, x < first → cur x = s x) :
+    ∃ r, app.dispatch (base ++ natDigits k) [mapArgVal (app.param (first + k)).kind (s (first + k))] cur
+        = some r ∧ r (first + k) = s (first + k) ∧ ∀ x, x ≠ first + k → r x = cur x := by
+  obtain ⟨_, hel⟩ := hwf.array_ok base first len hw
+  obtain ⟨haddr, hguards, hanc, _, hnd⟩ := hel k hk
+  have hfirst : first < app.size := by omega
+  have hks : first + k < app.size := by omega
+  have hancs : ∀ a ∈ (app.param (first + k)).anc, cur a = s a := by
+    intro a ha
+    rw [hanc] at ha
+    exact hcur a (hwf.anc_lt first hfirst a ha)
+  have hgt : guardsOn (app.param (first + k)) cur = true := by
+    rw [guardsOn_frame hwf hks cur s hancs]
+    unfold guardsOn; rw [hguards]; exact hgs
+  refine ⟨app.setParam (first + k) (s (first + k)) cur, ?_, setParam_self hwf _ _ _, ?_⟩
+  · rw [← haddr, dispatch_eq, findAddr_param app hwf.addr_nodup hks, Option.bind_some]
+    unfold dispatchAt
+    have hst : store (app.param (first + k)).kind
+        (mapArgVal (app.param (first + k)).kind (s (first + k))) = some (s (first + k)) :=
+      hs.storable (first + k) hks
+    simp only [ptrOff_of_guardsOn _ _ hgt, hst, hgt, if_true, Bool.false_eq_true, if_false]
+  · intro x hx
+    apply setParam_not_wr
+    rintro (h | h)
+    · exact hx h
+    · have := (mem_desc app).mp h
+      exact hnd x this.1 this.2
+
+theorem arr_run (hwf : app.WF) {s : State} (hs : app.Inv s) {base : Path} {first len : Nat}
+    (hw : Item.array base first len ∈ app.walk) (hsz : first + len ≤ app.size)
+    (hgs : guardsOn (app.param first) s = true) (m i : Nat) (him : i + m ≤ len) (cur : State)
+    (hcur : ∀ x, x < first → cur x = s x) :
+    ∃ r, app.dispatchArr base
+          ((List.range' i m).map fun k => mapArgVal (app.param (first + k)).kind (s (first + k))) i cur
+        = some r ∧ (∀ x, first + i ≤ x → x < first + i + m → r x = s x) ∧
+        (∀ x, ¬ (first + i ≤ x ∧ x < first + i + m) → r x = cur x) := by
+  induction m generalizing i cur with
+  | zero => exact ⟨cur, rfl, fun x h1 h2 => by omega, fun _ _ => rfl⟩
+  | succ m ih =>
+    obtain ⟨c, hd, hc1, hc2⟩ := arr_elem hwf hs hw hsz hgs (k := i) (by omega) cur hcur
+    obtain ⟨r, hr, hr1, hr2⟩ := ih (i + 1) (by omega) c
+      (fun x hx => by rw [hc2 x (by omega)]; exact hcur x hx)
+    refine ⟨r, ?_, ?_, ?_⟩
+    · rw [List.range'_succ, List.map_cons]
+      unfold dispatchArr
+      rw [hd]
+      exact hr
+    · intro x h1 h2
+      by_cases hx : x = first + i
+      · rw [hr2 x (by omega), hx, hc1]
+      · exact hr1 x (by omega) (by omega)
+    · intro x hx
+      rw [hr2 x (by omega), hc2 x (by omega)]
+
+theorem step_array (hwf : app.WF) {s : State} (hs : app.Inv s) {base : Path} {first len : Nat}
+    (hw : Item.array base first len ∈ app.walk) (hlen : 0 < len) (hsz : first + len ≤ app.size)
+    {t : State} (hm : app.Mid s first t) :
+    ∃ t', app.stepItem (app.saveItem s (.array base first len)) t = some t' ∧
+      app.Mid s (first + len) t' := by
+  obtain ⟨_, hel⟩ := hwf.array_ok base first len hw
+  have hfirst : first < app.size := by omega
+  have hancs : ∀ k, k < len → ∀ a ∈ (app.param (first + k)).anc, t a = s a := by
+    intro k hk a ha
+    rw [(hel k hk).2.2.1] at ha
+    exact hm.below a (hwf.anc_lt first hfirst a ha)
+  have hgk : ∀ k, k < len → ∀ u : State,
+      guardsOn (app.param (first + k)) u = guardsOn (app.param first) u := by
+    intro k hk u; unfold guardsOn; rw [(hel k hk).2.1]
+  have htk : ∀ k, k < len → t (first + k) = expected (app.param (first + k)) s := by
+    intro k hk
+    rw [hm.above (first + k) (by omega) (by omega)]
+    exact expected_frame hwf (by omega) t s (hancs k hk)
+  have hall : (∀ k, k < len → t (first + k) = s (first + k)) →
+      ∃ t', some t = some t' ∧ app.Mid s (first + len) t' := by
+    intro h
+    refine ⟨t, rfl, hm.extend (by omega) ?_⟩
+    intro i h1 h2
+    have := h (i - first) (by omega)
+    rwa [show first + (i - first) = i by omega] at this
+  rw [saveItem_array]
+  split
+  · next hgs =>
+    have hexp : ∀ k, k < len → expected (app.param (first + k)) s = evalDflt (app.param (first + k)) s := by
+      intro k hk; unfold expected; rw [hgk k hk, if_pos hgs]
+    split
+    · next heq =>
+      apply hall
+      intro k hk
+      rw [htk k hk, hexp k hk]
+      have := (List.map_inj_left.mp heq) (k + first) (by simp; exact hk)
+      rw [Nat.add_comm]; exact this
+    · next hne =>
+      obtain ⟨hsuf, hpos⟩ := arr_lists (fun i => evalDflt (app.param i) s) (fun i => s i) first len
+      have hpos := hpos hne
+      rw [arr_vals_eq (fun i => mapArgVal (app.param i).kind (s i))]
+      generalize firstEqualIndex _ _ 0 0 = n at hsuf hpos
+      obtain ⟨r, hr, h1, h2⟩ := arr_run hwf hs hw hsz hgs (min n len) 0 (by omega) t hm.below
+      refine ⟨r, ?_, ?_, ?_, ?_⟩
+      · show app.applyLine ⟨base, .arr _⟩ t = some r
+        rw [applyLine_arr_ne]
+        · exact hr
+        · intro h
+          have := congrArg List.length h
+          simp at this
+          omega
+      · intro i hi
+        by_cases hlo : i < first
+        · rw [h2 i (by omega)]; exact hm.below i hlo
+        · by_cases hmid : i < first + min n len
+          · exact h1 i (by omega) (by omega)
+          · rw [h2 i (by omega)]
+            have hk : i - first < len := by omega
+            have := htk (i - first) hk
+            rw [hexp _ hk, hsuf (i - first) hk (by omega)] at this
+            rwa [show first + (i - first) = i by omega] at this
+      · intro i hi1 hi2
+        rw [h2 i (by omega), hm.above i (by omega) hi2]
+        apply expected_frame hwf hi2
+        intro a ha
+        symm
+        apply h2 a
+        intro hcon
+        have hk : a - first < len := by omega
+        have := (hel (a - first) hk).2.2.2.2 i hi2
+        rw [show first + (a - first) = a by omega] at this
+        exact this ha
+      · intro i hi
+        rw [h2 i (by omega)]; exact hm.outside i hi
+  · next hgs =>
+    apply hall
+    intro k hk
+    simp only [Bool.not_eq_true] at hgs
+    have hgf : guardsOn (app.param (first + k)) s = false := by rw [hgk k hk]; exact hgs
+    rw [htk k hk, hs.hidden_canon (first + k) (by omega) hgf]
+    unfold expected; rw [hgf]; rfl
+
+end App
+
+/-! ## restoring a state (S4) -/
+namespace App
+variable {app : App}
+
+theorem runSteps_filterMap_cons (app : App) (s : State) (it : Item) (r : List Item) (t : State) :
+    runSteps app.applyLine ((it :: r).filterMap (app.saveItem s)) t
+      = (app.stepItem (app.saveItem s it) t).bind
+          (runSteps app.applyLine (r.filterMap (app.saveItem s))) := by
+  rw [List.filterMap_cons]
+  cases app.saveItem s it <;> rfl
+
+theorem restore_aux (hwf : app.WF) {s : State} (hs : app.Inv s) (l : List Item) (lo : Nat)
+    (ht : Tiling lo l app.size) (hw : ∀ it ∈ l, it ∈ app.walk) (t : State) (hm : app.Mid s lo t) :
+    runSteps app.applyLine (l.filterMap (app.saveItem s)) t = some s := by
+  induction l generalizing lo t with
+  | nil =>
+    have : lo = app.size := ht
+    subst this
+    rw [hm.final]
+    rfl
+  | cons it r ih =>
+    obtain ⟨h1, h2, h3⟩ := ht
+    have hhi : it.hi ≤ app.size := (tiling_facts h3).1
+    have hw' : ∀ x ∈ r, x ∈ app.walk := fun x hx => hw x (List.mem_cons_of_mem _ hx)
+    rw [runSteps_filterMap_cons]
+    cases it with
+    | scalar k =>
+      simp only [Item.lo, Item.hi] at h1 h2 h3 hhi
+      subst h1
+      obtain ⟨t', he, hm'⟩ := step_scalar hwf hs (show k < app.size by omega) hm
+      rw [he, Option.bind_some]
+      exact ih (k + 1) h3 hw' t' hm'
+    | array base first len =>
+      simp only [Item.lo, Item.hi] at h1 h2 h3 hhi
+      subst h1
+      obtain ⟨t', he, hm'⟩ := step_array hwf hs (hw _ List.mem_cons_self) (by omega) hhi hm
+      rw [he, Option.bind_some]
+      exact ih (first + len) h3 hw' t' hm'
+
+end App
+
+/-- S4: loading the saved lines in dependency (= index) order into a fresh instance
+    restores the state -/
+theorem restore_sorted (app : App) (hwf : app.WF) (s : State) (hs : app.Inv s)
+    (rw : List Item) (hperm : rw.Perm app.walk) (htile : Tiling 0 rw app.size) :
+    runSteps app.applyLine (app.saveFrom s rw []) app.init = some s := by
+  rw [App.saveFrom_perm_eq hwf s rw hperm]
+  exact App.restore_aux hwf hs rw 0 htile (fun it hit => hperm.subset hit) app.init
+    (App.mid_init hwf s hs)
+
+
 end Rtosc.Save
